@@ -37,22 +37,39 @@ void orc_c13_delivery(Delivery &d) {
     // settings may have been changed by the previous invocation or the driver since the events accumulated: use the laxest reading
     if (s.batch_changed_gseq > s.last_delivery_gseq) { s.last_delivery_gseq = d.gseq; return; }
     s.last_delivery_gseq = d.gseq;
-    if (last == 2 || flush) return;
-    if (last == 0) {
-        if (!timed) VIOL("C13", "C13:low-priority-triggered", "handler of module slot %d invoked by a low-priority event (%zu events, no batch timeout configured)", d.slot, n);
-        return;
+    if (flush) return;
+    // --- a trigger must not have been passed over: the handler runs "exactly when" one arrives
+    oracle_eval("C13.trigger-not-passed-over");
+    for (size_t i = 0; i + 1 < n; i++) {
+        int p = evt_prio(s, d.evts[i]);
+        if (p == 2)
+            VIOL("C13", d.evts[i].type == M_SRC_TYPE_FD ? "C13:high-priority-event-batched:fd" : "C13:high-priority-event-batched",
+                 "module slot %d received %zu events at once with a high-priority event (type %d) at position %zu: it did not cause an invocation when it arrived", d.slot, n, d.evts[i].type, i);
+        if (p == 1 && k > 0 && i + 1 >= k)
+            VIOL("C13", "C13:batch-size-passed-over", "module slot %d (batch size %zu) received %zu events at once: the normal-priority event at position %zu already completed a batch", d.slot, k, n, i);
+        if (p == 1 && k == 0 && !timed)
+            VIOL("C13", "C13:batched-without-batching", "module slot %d has no batch size or timeout configured but received %zu events at once, event %zu of them not low-priority", d.slot, n, i);
     }
-    // last is normal priority
-    if (k == 0 && !timed) {
-        // no batching: every normal event is delivered at once, only low-priority ones may have accumulated before it
-        for (size_t i = 0; i + 1 < n; i++) {
-            int p = evt_prio(s, d.evts[i]);
-            if (p > 0) VIOL("C13", "C13:batched-without-batching", "module slot %d has no batch size or timeout configured but received %zu events at once, event %zu of them not low-priority", d.slot, n, i);
-        }
-        return;
-    }
-    if (k > 0 && n < k && !timed)
+    // --- and every invocation needs a trigger
+    if (last == 2) return;
+    bool trigger = last == 1 && ((k == 0 && !timed) || (k > 0 && n >= k));
+    if (trigger) return;
+    if (!timed) {
+        if (last == 0) VIOL("C13", "C13:low-priority-triggered", "handler of module slot %d invoked by a low-priority event (%zu events, no batch timeout configured)", d.slot, n);
         VIOL("C13", "C13:flushed-before-batch-size", "handler of module slot %d invoked with %zu events by a normal-priority event although the batch size is %zu and no timeout is configured", d.slot, n, k);
+    }
+    // only the batch time-out can have caused this invocation: it must coincide with an expiry of that timer. Decidable when the
+    // loop polls promptly and is told about every ready source (blocking loop, no seam cost, no subset batches).
+    bool prompt = !W->loops.empty() && W->loops.back().blocking && R->cfg.cost_ns == 0 && R->cfg.subset_p == 0 && s.batch_timer_exact && s.batch_timer_armed_at;
+    if (!prompt) return;
+    oracle_eval("C13.timeout-trigger-coincides-with-expiry");
+    uint64_t since = R->now - s.batch_timer_armed_at;
+    uint64_t period = s.batch_timeout;
+    bool at_expiry = since >= period && (since % period) <= R->cfg.timer_late_ns;
+    if (!at_expiry)
+        VIOL("C13", last == 0 ? "C13:low-priority-triggered:not-at-timeout" : "C13:flushed-before-batch-size:not-at-timeout",
+             "handler of module slot %d invoked with %zu event(s), the last of %s priority, batch size %zu, %lu ns after the batch time-out timer (period %lu ns) was armed: neither the batch size nor the time-out can have caused it",
+             d.slot, n, last == 0 ? "low" : "normal", k, (unsigned long)since, (unsigned long)period);
 }
 
 void orc_c13_quiescent() {}
@@ -129,6 +146,15 @@ void orc_c15_api(const ApiRec &r, const Frame &f, const std::string &snap0, cons
             Slot &old = W->slots[holder];
             if (old.flags & M_MOD_ALLOW_REPLACE) {
                 if (r.rc == 0 && old.st != ST_ZOMBIE) VIOL("C15", "C15:replaced-module-not-deregistered", "module slot %d replaced slot %d under name '%s' but the old one is %s", r.slot, holder, nw.name.c_str(), st_name(old.st));
+                // the replacement itself must go through when nothing stands in its way: context there and open for registrations, the
+                // caller allowed to use it, the old module not protected by PERSIST in a looping context, and no callback did anything meanwhile
+                bool denied_ctx = cb && (W->slots[cb->slot].flags & M_MOD_DENY_CTX);
+                bool persist_blocks = (old.flags & M_MOD_PERSIST) && W->c15_looping_at_entry;
+                if (r.rc != 0 && f.had_ctx_at_entry && f.ctx_gen_at_entry == W->ctx_registrations && !W->ctx_finalized && !denied_ctx && !persist_blocks && f.script_ops == 0 &&
+                    W->frames.empty() && old.ctx_gen == f.ctx_gen_at_entry) {
+                    oracle_eval("C15.replacement-goes-through");
+                    VIOL("C15", "C15:replacement-refused", "registering a module named '%s' over slot %d, which allows replacement, returned %d%s", nw.name.c_str(), holder, r.rc, W->has_ctx ? "" : " and the context is gone");
+                }
             } else if (!W->has_ctx || W->ctx_finalized) {
             } else {
                 bool denied_ctx = cb && (W->slots[cb->slot].flags & M_MOD_DENY_CTX);   // refused earlier, for another reason
